@@ -37,25 +37,17 @@ CYCLE_GUARDS = {218: ('g_no_anon', 'finding', 'C13-CYCLE-ANON-DROP'), 219: ('g_n
                 220: ('g_renamed', 'finding', 'C13-CYCLE-STALE-PATH')}
 CYCLE_CORR = (25, 27, 28)
 CORR = (1, 2, 3, 4)
-# guard tag -> (conjunct name, kind, finding id)
+# guard tag -> (conjunct name, kind, finding id); the conjuncts of the fixed findings are gone
 GUARDS = {
     201: ('g_alphabet', 'class', None),
-    202: ('g_ignchar', 'finding', 'C13-IGNCHAR-REGEX'),
-    203: ('g_last_comment', 'finding', 'C13-LAST-COMMENT'),
-    204: ('g_blank', 'finding', 'C13-BLANK-MIDDLE'),
-    205: ('g_edge_tab', 'class', None),
-    206: ('g_first_width', 'finding', 'C13-SURPLUS-FIRST-ROW'),
-    207: ('g_rows_within', 'finding', 'C13-SHORT-FIRST-ROW'),
-    208: ('g_filter_cols', 'finding', 'C13-FILTER-SEES-PADDING'),
-    209: ('g_items_signed_d', 'finding', 'C13-NUM-SIGNED-D'),
-    210: ('g_items_anchored', 'finding', 'C13-NUM-TRAILING'),
-    211: ('g_items_charset', 'finding', 'C13-NUM-UNDERSCORE'),
-    212: ('g_id_drop', 'finding', 'C13-ID-DROP-TEXT'),
-    213: ('g_id_choice', 'class', None),
-    214: ('g_no_date', 'class', None),
-    215: ('g_names_unique', 'class', None),
-    216: ('g_filters_valid', 'class', None),
-    217: ('g_time_col', 'class', None),
+    202: ('g_edge_tab', 'class', None),
+    203: ('g_rows_within', 'finding', 'C13-SHORT-FIRST-ROW'),
+    204: ('g_items_charset', 'finding', 'C13-NUM-UNDERSCORE'),
+    205: ('g_id_drop', 'finding', 'C13-ID-DROP-TEXT'),
+    206: ('g_id_choice', 'class', None),
+    207: ('g_no_date', 'class', None),
+    208: ('g_names_unique', 'class', None),
+    209: ('g_filters_valid', 'class', None),
 }
 
 CODE_TAIL = "$PRED\nY=THETA(1)+ETA(1)+EPS(1)\n$THETA 1\n$OMEGA 1\n$SIGMA 1\n$ESTIMATION METHOD=1\n"
@@ -837,7 +829,16 @@ def run_enumerations(ctx):
     return nconv + len(strs)
 
 
+def dedupe_findings(ctx):
+    """known_findings.d/C13.json holds UPDATED entries (same ids): the later entry of an id wins, as in the maintainer's merge."""
+    byid = {}
+    for f in ctx.findings:
+        byid[f['id']] = f
+    ctx.findings = list(byid.values())
+
+
 def run(ctx):
+    dedupe_findings(ctx)
     ctx.build_gate(['C13'])
     ctx.trusted += [
         'harness/props/c13.py: generator, export of the real parsed $INPUT/$DATA records and of DataFrame cells '
@@ -909,6 +910,7 @@ def run(ctx):
 
 
 def replay(ctx, rep):
+    dedupe_findings(ctx)
     if 'cycle_spec' in rep:
         term, readcase, info = cycle_observe(rep['cycle_spec'], ctx.rundir / 'cycle', 0)
         tags = ctx.run_cases('replay', IMPORTS, 'cycle_case', [term], 'cycle_verdict')[0]
